@@ -141,6 +141,8 @@ func (V *Verifier) runScans(prop string) []*Oblig {
 		return V.scanNoRemove("C11", "Bid")
 	case "C14":
 		return V.scanDeterminism()
+	case "C17":
+		return V.scanHookWiring()
 	case "C20":
 		return V.scanAutoCLI()
 	}
@@ -529,7 +531,7 @@ func (sc *scanCtx) firstUseIsSort(v ssa.Value) bool {
 			if nm == "builtin append" && len(i.Common().Args) > 0 && i.Common().Args[0] == v {
 				continue // growing the same list is not a use of its order
 			}
-			if nm == "sort.Strings" || nm == "sort.Slice" || nm == "sort.SliceStable" || nm == "slices.Sort" || nm == "sort.Ints" {
+			if sc.launderingSort(i) {
 				sorted = true
 				continue
 			}
@@ -731,8 +733,7 @@ func (sc *scanCtx) phiSortedAfterLoop(p *ssa.Phi, blocks map[*ssa.BasicBlock]boo
 			continue
 		}
 		if ci, ok := r.(ssa.CallInstruction); ok {
-			nm := calleeName(ci.Common())
-			if nm == "sort.Strings" || nm == "sort.Slice" || nm == "sort.SliceStable" || nm == "slices.Sort" {
+			if sc.launderingSort(ci) {
 				sorted = true
 				continue
 			}
@@ -742,8 +743,7 @@ func (sc *scanCtx) phiSortedAfterLoop(p *ssa.Phi, blocks map[*ssa.BasicBlock]boo
 			ok := false
 			for _, r2 := range *p.Referrers() {
 				if ci, isCall := r2.(ssa.CallInstruction); isCall && !blocks[r2.Block()] {
-					nm := calleeName(ci.Common())
-					if (nm == "sort.Strings" || nm == "sort.Slice") && (r2.Block() == r.Block() && instrIndex(r2) < instrIndex(r) || r2.Block() != r.Block() && r2.Block().Dominates(r.Block())) {
+					if sc.launderingSort(ci) && (r2.Block() == r.Block() && instrIndex(r2) < instrIndex(r) || r2.Block() != r.Block() && r2.Block().Dominates(r.Block())) {
 						ok = true
 					}
 				}
@@ -837,8 +837,7 @@ func (sc *scanCtx) sliceSortedAfterLoop(v ssa.Value, blocks map[*ssa.BasicBlock]
 					uses = append(uses, *y.Referrers()...)
 				}
 			case ssa.CallInstruction:
-				nm := calleeName(y.Common())
-				if nm == "sort.Slice" || nm == "sort.Strings" || nm == "sort.SliceStable" || nm == "slices.Sort" {
+				if sc.launderingSort(y) {
 					sortedSeen = true
 				}
 			}
@@ -1011,4 +1010,165 @@ func (V *Verifier) scanEscrowDerivation(prop string) []*Oblig {
 	return []*Oblig{scanOblig(prop, "frame.escrow-addresses-derive-from-role-and-auction-id", len(bad) == 0,
 		"the selling, paying and vesting escrow address of an auction are address.Module(ModuleName, tag + decimal(auction id)) with three different digit-free tags, so distinct (role, auction) pairs get distinct hash inputs (A4 is left with: the SDK hash is injective)",
 		fmt.Sprintf("tags %v; address type %s; offending: %v", tags, kind, bad))}
+}
+
+// launderingSort: a call that turns a list of pairwise distinct elements into one whose order does not depend on the
+// order it was filled in. sort.Strings / sort.Ints / slices.Sort order by the elements themselves (a total order).
+// sort.Slice / sort.SliceStable qualify only if the less function compares the two elements s[i] and s[j] directly
+// (s[i] < s[j], s[i].GT(s[j]), ...): a comparator that looks something up under the elements (an amount, a price) may
+// tie, and tied elements keep the order they arrived in -- the order of the map iteration.
+func (sc *scanCtx) launderingSort(ci ssa.CallInstruction) bool {
+	c := ci.Common()
+	switch calleeName(c) {
+	case "sort.Strings", "sort.Ints", "slices.Sort":
+		return true
+	case "sort.Slice", "sort.SliceStable":
+	default:
+		return false
+	}
+	if len(c.Args) != 2 {
+		return false
+	}
+	mc, ok := c.Args[1].(*ssa.MakeClosure)
+	if !ok {
+		return false
+	}
+	less, ok := mc.Fn.(*ssa.Function)
+	if !ok || len(less.Params) != 2 || len(less.Blocks) == 0 {
+		return false
+	}
+	// the elements: loads of &s[i] and &s[j] where the index is one of the two parameters
+	var elems []ssa.Value
+	for _, b := range less.Blocks {
+		for _, in := range b.Instrs {
+			ld, isLoad := in.(*ssa.UnOp)
+			if !isLoad || ld.Op != token.MUL {
+				continue
+			}
+			ia, isIA := ld.X.(*ssa.IndexAddr)
+			if !isIA {
+				continue
+			}
+			if ia.Index == ssa.Value(less.Params[0]) || ia.Index == ssa.Value(less.Params[1]) {
+				elems = append(elems, ld)
+			}
+		}
+	}
+	if len(elems) != 2 {
+		return false
+	}
+	// both elements are used once, by the same comparison, whose result is what the function returns
+	var cmp ssa.Instruction
+	for _, e := range elems {
+		n := 0
+		for _, r := range *e.Referrers() {
+			if _, dbg := r.(*ssa.DebugRef); dbg {
+				continue
+			}
+			n++
+			if cmp == nil {
+				cmp = r
+			} else if cmp != r {
+				return false
+			}
+		}
+		if n != 1 {
+			return false
+		}
+	}
+	switch y := cmp.(type) {
+	case *ssa.BinOp:
+		if y.Op != token.LSS && y.Op != token.GTR {
+			return false
+		}
+	case *ssa.Call:
+		nm := calleeName(y.Common())
+		if !(strings.HasSuffix(nm, ".GT") || strings.HasSuffix(nm, ".LT")) || !strings.Contains(nm, "cosmossdk.io/math.") {
+			return false
+		}
+	default:
+		return false
+	}
+	cv, ok := cmp.(ssa.Value)
+	if !ok || cv.Referrers() == nil {
+		return false
+	}
+	for _, r := range *cv.Referrers() {
+		if _, dbg := r.(*ssa.DebugRef); dbg {
+			continue
+		}
+		if _, isRet := r.(*ssa.Return); !isRet {
+			return false
+		}
+	}
+	return true
+}
+
+// C17: the listeners other modules register must reach the keeper that serves messages and blocks. The application is
+// wired by depinject: InvokeSetHooks receives what the container can resolve and nil for everything else (the inputs of
+// an invoker are optional), and returns at once when either input is nil. So (a) the keeper type it asks for must be a
+// type ProvideModule outputs, and (b) the listener map must be keyed by module over a OnePerModuleType (only those are
+// gathered into a map[string]T by the container).
+func (V *Verifier) scanHookWiring() []*Oblig {
+	var pkg *packages.Package
+	packages.Visit(V.pkgs, nil, func(p *packages.Package) {
+		if p.PkgPath == modModule {
+			pkg = p
+		}
+	})
+	ok, detail := false, "module package not loaded"
+	if pkg != nil {
+		inv, _ := pkg.Types.Scope().Lookup("InvokeSetHooks").(*types.Func)
+		outs, _ := pkg.Types.Scope().Lookup("ModuleOutputs").(*types.TypeName)
+		switch {
+		case inv == nil || outs == nil:
+			detail = "InvokeSetHooks or ModuleOutputs not found"
+		default:
+			sig := inv.Type().(*types.Signature)
+			var problems []string
+			provided := map[string]bool{}
+			if st, isSt := outs.Type().Underlying().(*types.Struct); isSt {
+				for i := 0; i < st.NumFields(); i++ {
+					provided[st.Field(i).Type().String()] = true
+				}
+			}
+			for i := 0; i < sig.Params().Len(); i++ {
+				pt := sig.Params().At(i).Type()
+				if mp, isMap := pt.Underlying().(*types.Map); isMap {
+					// gathered per module only for OnePerModuleType values
+					has := false
+					ms := types.NewMethodSet(mp.Elem())
+					for k := 0; k < ms.Len(); k++ {
+						if ms.At(k).Obj().Name() == "IsOnePerModuleType" {
+							has = true
+						}
+					}
+					if !has {
+						problems = append(problems, fmt.Sprintf("parameter %s: %s is not a depinject OnePerModuleType, so the container never builds this map (it is nil, and InvokeSetHooks returns at once)", sig.Params().At(i).Name(), mp.Elem()))
+					}
+					continue
+				}
+				if !provided[pt.String()] {
+					problems = append(problems, fmt.Sprintf("parameter %s: no provider outputs %s (ProvideModule outputs %v), so it is nil", sig.Params().At(i).Name(), pt, boolKeys(provided)))
+				}
+			}
+			sort.Strings(problems)
+			ok, detail = len(problems) == 0, strings.Join(problems, "; ")
+			if ok {
+				detail = "every input of InvokeSetHooks is resolvable by the container"
+			}
+		}
+	}
+	o := scanOblig("C17", "wiring.registered-listeners-reach-the-keeper", ok,
+		"every input of module.InvokeSetHooks is something the depinject container can supply: the keeper type is an output of ProvideModule and the listener map ranges over a OnePerModuleType", detail)
+	return []*Oblig{o}
+}
+
+func boolKeys(m map[string]bool) []string {
+	var out []string
+	for k := range m {
+		out = append(out, k)
+	}
+	sort.Strings(out)
+	return out
 }
